@@ -85,7 +85,13 @@ def h_diff(I, job):
         I.store(tm + 2 * k, i16, t); I.store(im + 8 * k, i64, d); I.store(vm + 4 * k, i32, k + 1)
         ts.append(I.term(t, 16)); ids.append(I.term(d, 64))
     log = I.new_obj(4 * (n + 2), 'log', 'heap')
-    cnt = I.concretize(I.call('@verif_diff', [tm, im, vm, n, log, n + 2]), 'count'); I.observe('count', cnt)
+    if job.get('cuts'):
+        # the same objects handed out by an input-iterator source in several buffers
+        cm = I.new_obj(4 * len(job['cuts']), 'cuts', 'heap')
+        for k, c in enumerate(job['cuts']): I.store(cm + 4 * k, i32, c)
+        cnt = I.concretize(I.call('@verif_diff_input', [tm, im, n, cm, len(job['cuts']), log, n + 2]), 'count'); I.observe('count', cnt)
+    else:
+        cnt = I.concretize(I.call('@verif_diff', [tm, im, vm, n, log, n + 2]), 'count'); I.observe('count', cnt)
     if cnt != n: raise Finding('diff', 'diff iterator visits %d positions for %d objects' % (cnt, n))
     same = lambda a, b: z3.And(ts[a] == ts[b], ids[a] == ids[b])
     for k in range(n):
@@ -113,7 +119,7 @@ def harnesses(tier):
                           desc='%s: %d items whose type ranges over all 13 item types (entity and non-entity) and whose removed flag is symbolic: the sequence (handler, callback, item) equals the reference dispatch; flush once per handler at the end' % (nm, n),
                           bounds='%d items' % n))
     nd = 4 if q else 5
-    hs.append(Harness('diff_iterator', 'dispatch', h_diff, jobs=[dict(n=k) for k in range(1, nd + 1)],
-                      desc='DiffIterator over 1..%d objects with symbolic type and 64-bit id: each position once, prev/next = neighbour iff same (type, id) else curr, first/last exactly at run borders' % nd,
-                      bounds='<= %d objects' % nd, testgen=lambda rnd: [dict(_job=nd - 1, **{'type%d' % k: rnd.randint(1, 3) for k in range(nd)}, **{'id%d' % k: rnd.randint(1, 2) for k in range(nd)}) for _ in range(8)]))
+    hs.append(Harness('diff_iterator', 'dispatch', h_diff, sanitize=True, jobs=[dict(n=k) for k in range(1, nd + 1)] + [dict(n=sum(c), cuts=c) for c in ([[1, 1], [2, 1], [1, 2], [1, 1, 1], [2, 0, 2]] if q else [[1, 1], [2, 1], [1, 2], [1, 1, 1], [2, 0, 2], [2, 2], [1, 1, 1, 1], [3, 1], [1, 3], [2, 1, 2]])],
+                      desc='DiffIterator over 1..%d objects with symbolic type and 64-bit id: each position once, prev/next = neighbour iff same (type, id) else curr, first/last exactly at run borders; the same over an io::InputIterator whose source hands the objects out in 2-4 buffers (a buffer is freed when the last iterator copy leaves it: prev/curr/next must stay readable)' % nd,
+                      bounds='<= %d objects in one buffer; <= %d objects split over <= %d buffers (empty buffer included)' % (nd, 4 if q else 5, 3 if q else 4), testgen=lambda rnd: [dict(_job=nd - 1, **{'type%d' % k: rnd.randint(1, 3) for k in range(nd)}, **{'id%d' % k: rnd.randint(1, 2) for k in range(nd)}) for _ in range(8)]))
     return hs
